@@ -390,7 +390,9 @@ def check_sharing(ctx):
             if c.is_("async_lock::rwlock::RwLock::new") and c.gargs and c.gargs[0] == "acmed::endpoint::Endpoint":
                 ctx.require(R3, b.key.startswith(build), c.where(), "RwLock<Endpoint> created in %s" % b.key,
                             [b.key.split("::{closure")[0], "rwlock-new"])
-    ctx.floor(R3, "Endpoint deep-clone sites (building the shared map)", n_deep, 1)
+    # (expected-zero rule outside the event-loop construction; the positive control is that Clone calls ARE seen at all in acmed)
+    n_clone_seen = sum(1 for b in prog.user_bodies(("acmed",)) for c in b.calls if c.fn in ("core::clone::Clone::clone", "alloc::borrow::ToOwned::to_owned"))
+    ctx.floor(R3, "Clone/ToOwned call sites examined in acmed (control for the deep-clone rule)", n_clone_seen, 50)
     # run(): the EndpointSync handed to renew_certificate is an Arc clone of self.endpoints[..]
     run = prog.async_body("acmed::main_event_loop::MainEventLoop::run")
     rc = run.calls_to("acmed::main_event_loop::renew_certificate")
